@@ -675,7 +675,7 @@ fn fail_one(
     };
     out.count("io_faults", 1);
     out.count(&format!("io_fault_{}", what.split('.').last().unwrap_or("op")), 1);
-    let mut viols: Vec<Viol> = vec![];
+    let mut viols: Vec<Viol> = w.viols.iter().filter(|v| v.clause.starts_with("C13.")).cloned().collect();
     let call = w.calls.get(call_no as usize).cloned();
     let Some(call) = call else {
         // fault fired outside any public call (scan): not judged
